@@ -72,6 +72,9 @@ func (g *Genesis) Mutate(bt *Built, m string, pos int, other *Account) []byte {
 			st.Type = action.SEND
 		}
 	case "substKey":
+		if st.Type == action.OLVM {
+			return nil // the signer of an OLVM transaction is recovered from the signature; the carried key takes no part in it
+		}
 		st.Signatures[pos].Signer = other.Pub
 	case "flipSig":
 		sg := append([]byte{}, st.Signatures[pos].Signed...)
@@ -87,6 +90,9 @@ func (g *Genesis) Mutate(bt *Built, m string, pos int, other *Account) []byte {
 		}
 		st.Signatures[0], st.Signatures[1] = st.Signatures[1], st.Signatures[0]
 	case "changeAlg":
+		if st.Type == action.OLVM {
+			return nil // see substKey
+		}
 		pk := st.Signatures[pos].Signer
 		if pk.KeyType == keys.ED25519 {
 			pk.KeyType = keys.SECP256K1
